@@ -9,6 +9,7 @@ registrations exactly once and records them in MODEL_REGISTRY, the harness' own 
 from __future__ import annotations
 
 import collections.abc
+import dataclasses
 import os
 import time
 from collections import OrderedDict, UserDict, defaultdict, deque, namedtuple
@@ -307,6 +308,28 @@ class DC:
         return (('x', self.x), ('y', self.y)), ('tag', self.tag)
 
 
+@dataclasses.dataclass
+class DCI:
+    """a plain dataclass registered by hand with DataclassEntry and *integer* entries (2-tuple flatten):
+    entry i addresses the i-th init field; a non-init field sits between the two children"""
+
+    a: object
+    hidden: object = dataclasses.field(init=False, default='derived')
+    b: object = None
+
+    def _v_fields(self):
+        return (('a', self.a), ('b', self.b)), ('-', None)
+
+
+def dci_flatten(o):
+    return (o.a, o.b), None
+
+
+def dci_unflatten(meta, ch):
+    a, b = ch
+    return DCI(a, b)
+
+
 def fn_a(*args, **kwargs):
     return ('fn_a', args, kwargs)
 
@@ -417,7 +440,7 @@ def bad_unflatten(meta, ch):
     return Bad('rebuilt')
 
 
-CUSTOM_CLASSES = (CG, CN, CS, CM, CU, CI, DC, oft.partial, Bad, CSeq, CMap)
+CUSTOM_CLASSES = (CG, CN, CS, CM, CU, CI, DC, oft.partial, Bad, CSeq, CMap, DCI)
 
 # (namespace, type) -> (flatten, unflatten, path_entry_type).  '' is the global namespace.
 MODEL_REGISTRY: dict = {}
@@ -459,6 +482,9 @@ def install():
     MODEL_REGISTRY[('', CSeq)] = (_cls_flatten, CSeq.tree_unflatten, optree.AutoEntry)
     optree.register_pytree_node_class(CMap, namespace=NS)
     MODEL_REGISTRY[(NS, CMap)] = (_cls_flatten, CMap.tree_unflatten, optree.AutoEntry)
+    optree.register_pytree_node(DCI, dci_flatten, dci_unflatten, path_entry_type=optree.DataclassEntry,
+                                namespace=GLOBAL)
+    MODEL_REGISTRY[('', DCI)] = (dci_flatten, dci_unflatten, optree.DataclassEntry)
     # malformed node: registered with optree only (the model never flattens it)
     optree.register_pytree_node(Bad, bad_flatten, bad_unflatten, namespace=GLOBAL)
 
